@@ -16,11 +16,12 @@ import (
 )
 
 type comScen struct {
-	Kind   string   `json:"kind"`
-	Attach string   `json:"attach"`
-	Group  []string `json:"group"`
-	MGroup []string `json:"mgroup"`
-	Expect string   `json:"expect"`
+	Kind    string   `json:"kind"`
+	Attach  string   `json:"attach"`
+	Group   []string `json:"group"`
+	MGroup  []string `json:"mgroup"`
+	MAttach string   `json:"mattach"`
+	Expect  string   `json:"expect"`
 }
 
 func renderComment(items []string, indent string) string {
@@ -47,10 +48,22 @@ func renderDecl(i int, s comScen) string {
 		inside = renderComment(s.Group, "\t")
 	}
 	m := renderComment(s.MGroup, "\t")
+	mtrail := ""
+	switch s.MAttach {
+	case "detached":
+		if m != "" {
+			m += "\n"
+		}
+	case "trailing":
+		m = ""
+		if len(s.MGroup) > 0 {
+			mtrail = " " + s.MGroup[0] + "\n" + renderComment(s.MGroup[1:], "\t")
+		}
+	}
 	var body string
 	switch s.Kind {
 	case "type-single":
-		body = fmt.Sprintf("%s%stype C%d interface {\n%s\tM(source int) int\n%s}%s\n", detached, doc, i, m, inside, trailing)
+		body = fmt.Sprintf("%s%stype C%d interface {\n%s\tM(source int) int%s\n%s}%s\n", detached, doc, i, m, mtrail, inside, trailing)
 	case "type-spec":
 		body = fmt.Sprintf("type (\n%s%s\tC%d interface {\n%s\t\tM(source int) int\n%s\t}%s\n)\n", strings.ReplaceAll(detached, "\n\n", "\n\n"), indentAll(doc), i, m, inside, trailing)
 	case "type-group1":
@@ -60,7 +73,7 @@ func renderDecl(i int, s comScen) string {
 	case "type-struct":
 		body = fmt.Sprintf("%s%stype C%d struct {\n%s\tF int\n%s}%s\n", detached, doc, i, m, inside, trailing)
 	case "var-block":
-		body = fmt.Sprintf("%s%svar (\n%s\tV%d func(source int) int\n%s)%s\n", detached, doc, m, i, inside, trailing)
+		body = fmt.Sprintf("%s%svar (\n%s\tV%d func(source int) int%s\n%s)%s\n", detached, doc, m, i, mtrail, inside, trailing)
 	case "var-single":
 		body = fmt.Sprintf("%s%svar V%d func(source int) int%s\n%s", detached, doc, i, trailing, strings.ReplaceAll(inside, "\t", ""))
 	case "const":
@@ -143,7 +156,7 @@ func cmdComments(args []string) {
 	recs := make([]map[string]any, len(scens))
 	mk := func(i int, outcome string, found []comFound, diag string) map[string]any {
 		s := scens[i]
-		return map[string]any{"id": i, "kind": s.Kind, "attach": s.Attach, "group": nz(s.Group), "mgroup": nz(s.MGroup), "outcome": outcome, "found": found, "diag": firstLine(diag)}
+		return map[string]any{"id": i, "kind": s.Kind, "attach": s.Attach, "group": nz(s.Group), "mgroup": nz(s.MGroup), "mattach": s.MAttach, "outcome": outcome, "found": found, "diag": firstLine(diag)}
 	}
 	// batches of layouts that are expected to be accepted
 	var single []int
